@@ -565,6 +565,11 @@ Theorem compare_natural_agrees_wide : forall a b, runs_fit a -> runs_fit b ->
   compare_natural a b = compare_natural_wide a b.
 Proof. intros a b Ha Hb. rewrite compare_natural_key, compare_natural_wide_key by assumption. reflexivity. Qed.
 
+Theorem compare_natural_wide_variant : forall a b : list Z,
+  compare_natural_wide a b = Ok (key_cmp (key a) (key b)) /\
+  (runs_fit a -> runs_fit b -> compare_natural a b = compare_natural_wide a b).
+Proof. intros a b. split; [apply compare_natural_wide_key | apply compare_natural_agrees_wide]. Qed.
+
 (* order laws: no hypothesis *)
 Theorem compare_natural_range : forall a b,
   exists c, compare_natural a b = Ok c /\ (c = -1 \/ c = 0 \/ c = 1).
